@@ -304,11 +304,22 @@ def _shape(ctx) -> None:
                             val = d.value if d.kind == "elem" else (d.term[2][0] if d.term[2] else None)
                             got.append((tuple(d.conds[base:]), val))
                         okc = False
+                        ln_row = ("call", ("name", "len"), (row,), ())
+
+                        def canon(c, pol):
+                            """`col < len(row)` in any of its spellings (col >= len(row) negated, len(row) > col, len(row) <= col negated)"""
+                            if c[0] == "cmp" and c[2] == ("idx", Lc) and c[3] == ln_row and c[1] in ("Lt", "GtE"):
+                                return (present, pol if c[1] == "Lt" else not pol)
+                            if c[0] == "cmp" and c[3] == ("idx", Lc) and c[2] == ln_row and c[1] in ("Gt", "LtE"):
+                                return (present, pol if c[1] == "Gt" else not pol)
+                            return (c, pol)
                         if len(got) == 2:
-                            m = {c: v for c, v in got}
+                            m = {tuple(canon(c, pol) for c, pol in cs): v for cs, v in got}
                             okc = m.get(((present, True),)) == cell and m.get(((present, False),)) == SNONE
-                        elif len(got) == 1 and not got[0][0]:
-                            okc = got[0][1] == ("ifexp", present, cell, SNONE)
+                        elif len(got) == 1 and not got[0][0] and got[0][1][0] == "ifexp":
+                            c_, pol_ = canon(got[0][1][1], True)
+                            alt = (got[0][1][2], got[0][1][3]) if pol_ else (got[0][1][3], got[0][1][2])
+                            okc = c_ == present and alt == (cell, SNONE)
                         if not okc:
                             desc = "; ".join(f"{show_conds(c, it)[:40]} -> {sh(v, 40)}" for c, v in got)
                             tp.append(f"cells are filled as [{desc}]: expected _infer_type(row[col]) when the record has that field, one None "
